@@ -154,27 +154,29 @@ Fixpoint tflat (t : tens) : list T :=
 End Model.
 Arguments Sc {T}. Arguments Vec {T}.
 
-(** ** comparison helpers for the Q instance *)
-Definition qclose (tol a b : Q) : bool := Qle_bool (Qabs (a - b)%Q) tol.
-Fixpoint lclose (tol : Q) (a b : list Q) : bool :=
+(** ** comparison helpers (generic in the closeness test; instantiated over Q and, in the
+    generated case files, over Bignums' bigQ for speed) *)
+Section Compare.
+Context {T : Type} (close : T -> T -> bool).
+Fixpoint lclose (a b : list T) : bool :=
   match a, b with
   | [], [] => true
-  | x :: a', y :: b' => qclose tol x y && lclose tol a' b'
+  | x :: a', y :: b' => close x y && lclose a' b'
   | _, _ => false
   end.
-Fixpoint mclose (tol : Q) (a b : list (list Q)) : bool :=
+Fixpoint mclose (a b : list (list T)) : bool :=
   match a, b with
   | [], [] => true
-  | x :: a', y :: b' => lclose tol x y && mclose tol a' b'
+  | x :: a', y :: b' => lclose x y && mclose a' b'
   | _, _ => false
   end.
-Definition tclose (tol : Q) (a b : tens (T:=Q)) : bool := lclose tol (tflat a) (tflat b).
+Definition tclose (a b : tens (T:=T)) : bool := lclose (tflat a) (tflat b).
 (** same nesting structure *)
-Fixpoint tshape_eq (a b : tens (T:=Q)) : bool :=
+Fixpoint tshape_eq (a b : tens (T:=T)) : bool :=
   match a, b with
   | Sc _, Sc _ => true
   | Vec l, Vec m =>
-      (fix go (l m : list (tens (T:=Q))) : bool :=
+      (fix go (l m : list (tens (T:=T))) : bool :=
          match l, m with
          | [], [] => true
          | x :: l', y :: m' => tshape_eq x y && go l' m'
@@ -182,4 +184,334 @@ Fixpoint tshape_eq (a b : tens (T:=Q)) : bool :=
          end) l m
   | _, _ => false
   end.
-Definition tsame (tol : Q) (a b : tens (T:=Q)) : bool := tshape_eq a b && tclose tol a b.
+Definition tsame (a b : tens (T:=T)) : bool := tshape_eq a b && tclose a b.
+End Compare.
+Definition qclose (tol a b : Q) : bool := Qle_bool (Qabs (a - b)%Q) tol.
+
+(** * Theory over R for the model above *)
+Local Open Scope R_scope.
+
+(** ** list facts about the node selection *)
+Lemma In_removelast {A} (x : A) l : In x (removelast l) -> In x l.
+Proof.
+  induction l as [|a l IH]; [contradiction|]. destruct l as [|b l]; [contradiction|].
+  change (removelast (a :: b :: l)) with (a :: removelast (b :: l)).
+  intros [->|H]; [now left|right; now apply IH].
+Qed.
+Lemma NoDup_removelast {A} (l : list A) : NoDup l -> NoDup (removelast l).
+Proof.
+  induction l as [|a l IH]; intro H; [constructor|]. destruct l as [|b l]; [constructor|].
+  change (removelast (a :: b :: l)) with (a :: removelast (b :: l)).
+  inversion H; subst. constructor.
+  - intro K. apply In_removelast in K. contradiction.
+  - now apply IH.
+Qed.
+Lemma In_tl {A} (x : A) l : In x (tl l) -> In x l.
+Proof. destruct l; [contradiction|]. intro H. now right. Qed.
+Lemma NoDup_tl {A} (l : list A) : NoDup l -> NoDup (tl l).
+Proof. destruct l; [trivial|]. intro H. now inversion H. Qed.
+
+Lemma trim_incl {A} d ep (l : list A) : incl (trim d ep l) l.
+Proof.
+  intros x. unfold trim. destruct ep; [trivial|]. destruct d; intro H;
+    try (apply In_tl; now apply In_removelast); now apply In_removelast.
+Qed.
+Lemma trim_NoDup {A} d ep (l : list A) : NoDup l -> NoDup (trim d ep l).
+Proof.
+  intro H. unfold trim. destruct ep; [exact H|].
+  destruct d; try (apply NoDup_removelast; now apply NoDup_tl); now apply NoDup_removelast.
+Qed.
+
+Lemma dropped_last (l : list R) g : In g l -> ~ In g (removelast l) -> g = last l 0.
+Proof.
+  intros Hin Hn. destruct l as [|a t]; [contradiction|].
+  assert (E : a :: t <> []) by discriminate.
+  rewrite (app_removelast_last 0 E) in Hin. apply in_app_or in Hin.
+  destruct Hin as [K|[K|[]]]; [contradiction|now symmetry].
+Qed.
+Lemma dropped_ends (l : list R) g :
+  In g l -> ~ In g (removelast (tl l)) -> g = hd 0 l \/ g = last l 0.
+Proof.
+  intros Hin Hn. destruct l as [|a t]; [contradiction|]. cbn [tl hd] in *.
+  destruct Hin as [->|Hin]; [now left|]. right.
+  destruct t as [|b t']; [contradiction|].
+  change (last (a :: b :: t') 0) with (last (b :: t') 0). now apply dropped_last.
+Qed.
+(** the points dropped by [trim] are the end points *)
+Lemma trim_dropped d ep (l : list R) g :
+  In g l -> ~ In g (trim d ep l) ->
+  match d with Dpp => g = last l 0 | _ => g = hd 0 l \/ g = last l 0 end.
+Proof.
+  unfold trim. destruct ep; [intros H K; contradiction|].
+  destruct d; intros H K; try (now apply dropped_ends); now apply dropped_last.
+Qed.
+
+Lemma map_nth_seq {A} (l : list A) (dflt : A) a k :
+  (a + k <= length l)%nat -> map (fun n => nth n l dflt) (seq a k) = firstn k (skipn a l).
+Proof.
+  revert a l; induction k as [|k IH]; intros a l H; [reflexivity|].
+  cbn [seq map]. rewrite (IH (S a) l) by lia.
+  assert (Hlt : (a < length l)%nat) by lia.
+  clear IH H. revert l Hlt. induction a as [|a IHa]; intros l Hlt.
+  - destruct l; [cbn in Hlt; lia|reflexivity].
+  - destruct l as [|x l]; [cbn in Hlt; lia|]. cbn [nth]. cbn [skipn].
+    apply IHa. cbn in Hlt. lia.
+Qed.
+Lemma removelast_firstn {A} (l : list A) : removelast l = firstn (length l - 1) l.
+Proof. rewrite removelast_firstn_len. f_equal. lia. Qed.
+
+(** size of the complete grid of a direction *)
+Definition gsize (d : dir) (M N : nat) : nat :=
+  match d with Dz => M + 1 | Dpz => N + 1 | Dpp => N end%nat.
+Definition sizes_ok (d : dir) (M N : nat) : Prop :=
+  match d with Dz => (2 <= M)%nat | _ => (2 <= N)%nat end.
+
+(** the cardinal indices that [evaluate] uses select exactly the nodes of
+    getCompactCoordinates(endpoints, direction) *)
+Lemma evalCard_nodes d ep (grid : list R) M N :
+  length grid = gsize d M N -> sizes_ok d M N ->
+  map (fun n => nth n grid 0) (cfg_range (cfg_evalCard d ep M N)) = trim d ep grid.
+Proof.
+  intros L HS. unfold cfg_range, arange, trim.
+  destruct d, ep; cbn [cfg_evalCard c_lo c_hi gsize sizes_ok] in *;
+    rewrite map_nth_seq by lia; cbn [skipn].
+  all: try (replace (M + 1 - 0)%nat with (length grid) by lia; apply firstn_all).
+  all: try (replace (N + 1 - 0)%nat with (length grid) by lia; apply firstn_all).
+  all: try (replace (N - 0)%nat with (length grid) by lia; apply firstn_all).
+  - destruct grid as [|a t]; [cbn in L; lia|]. cbn [skipn tl]. rewrite removelast_firstn.
+    f_equal. cbn in L. lia.
+  - destruct grid as [|a t]; [cbn in L; lia|]. cbn [skipn tl]. rewrite removelast_firstn.
+    f_equal. cbn in L. lia.
+  - rewrite removelast_firstn. f_equal. lia.
+Qed.
+
+(** ** the Chebyshev index ranges of the four methods agree (for the grid sizes that
+    Grid produces), and so do the effective restrictions *)
+Definition eff_restr (d : dir) (ep : bool) : restr := if ep then RNone else full_restr d.
+
+Lemma cfg_evalCheb_eq d ep M N : sizes_ok d M N ->
+  cfg_range (cfg_evalCheb d ep M N) = cfg_range (cfg_changeBasis d ep M N) /\
+  c_restr (cfg_evalCheb d ep M N) = c_restr (cfg_changeBasis d ep M N).
+Proof.
+  intro HS. unfold cfg_range, arange.
+  destruct d, ep; cbn [cfg_evalCheb cfg_evalCard cfg_changeBasis c_lo c_hi c_restr full_restr sizes_ok] in *;
+    split; try reflexivity; f_equal; lia.
+Qed.
+Lemma cfg_chebMatrix_eq d ep M N : sizes_ok d M N ->
+  cfg_range (cfg_chebMatrix d ep (gsize d M N - match d with Dpp => 1 - b2n ep | _ => 2 - 2 * b2n ep end))
+    = cfg_range (cfg_changeBasis d ep M N) /\
+  c_restr (cfg_chebMatrix d ep (gsize d M N - match d with Dpp => 1 - b2n ep | _ => 2 - 2 * b2n ep end))
+    = c_restr (cfg_changeBasis d ep M N).
+Proof.
+  intro HS. unfold cfg_range, arange.
+  destruct d, ep; cbn [cfg_chebMatrix cfg_changeBasis c_lo c_hi c_restr full_restr sizes_ok gsize b2n Nat.mul Nat.sub Nat.add] in *;
+    split; try reflexivity; f_equal; lia.
+Qed.
+Lemma cfg_chebDeriv_eq d ep M N : sizes_ok d M N ->
+  cfg_range (cfg_chebDeriv d ep (gsize d M N)) = cfg_range (cfg_changeBasis d ep M N) /\
+  (if ep then RNone else c_restr (cfg_chebDeriv d ep (gsize d M N))) = c_restr (cfg_changeBasis d ep M N).
+Proof.
+  intro HS. unfold cfg_range, arange.
+  destruct d, ep; cbn [cfg_chebDeriv cfg_changeBasis c_lo c_hi c_restr full_restr sizes_ok gsize b2n Nat.mul Nat.sub Nat.add] in *;
+    split; try reflexivity; f_equal; lia.
+Qed.
+Lemma cfg_changeBasis_restr d ep M N : c_restr (cfg_changeBasis d ep M N) = eff_restr d ep.
+Proof. destruct d, ep; reflexivity. Qed.
+Lemma cfg_changeBasis_bound d ep M N n :
+  In n (cfg_range (cfg_changeBasis d ep M N)) -> (S n <= gsize d M N)%nat.
+Proof.
+  unfold cfg_range, arange. rewrite in_seq.
+  destruct d, ep; cbn [cfg_changeBasis c_lo c_hi gsize]; lia.
+Qed.
+
+(** ** dot products over R *)
+Lemma odot_R_map {A} (f g : A -> R) (l : list A) :
+  odot ROps (map f l) (map g l) = Rsum (map (fun a => f a * g a) l).
+Proof. induction l as [|a l IH]; [reflexivity|]. cbn [map odot]. rewrite IH. reflexivity. Qed.
+
+Lemma odot_is_poly n (fs : list (R -> R)) (c : list R) :
+  (1 <= n)%nat -> (forall f, In f fs -> is_poly n f) ->
+  is_poly n (fun y => odot ROps (map (fun f => f y) fs) c).
+Proof.
+  intros Hn. revert c. induction fs as [|f fs IH]; intros c H.
+  - apply (is_poly_mono 1); [exact Hn|]. apply (is_poly_ext _ (fun _ => 0)); [reflexivity|apply is_poly_const].
+  - destruct c as [|k c].
+    + apply (is_poly_mono 1); [exact Hn|]. apply (is_poly_ext _ (fun _ => 0)); [reflexivity|apply is_poly_const].
+    + cbn [map odot]. apply (is_poly_plus n (fun y => f y * k) (fun y => odot ROps (map (fun f0 => f0 y) fs) c)).
+      * apply (is_poly_ext _ (fun y => k * f y)); [intro; cbn; ring|]. apply is_poly_scal. apply H. now left.
+      * apply IH. intros g Hg. apply H. now right.
+Qed.
+
+Lemma odot_derive (fs : list (R -> R)) (dfs : list R) (c : list R) x :
+  Forall2 (fun f df => derivable_pt_lim f x df) fs dfs ->
+  derivable_pt_lim (fun y => odot ROps (map (fun f => f y) fs) c) x (odot ROps dfs c).
+Proof.
+  intro H. revert c. induction H as [|f df fs dfs Hf _ IH]; intro c.
+  - cbn. apply derivable_pt_lim_const.
+  - destruct c as [|k c]; [cbn; apply derivable_pt_lim_const|].
+    cbn [map odot]. cbn [ROps oadd omul].
+    apply (derivable_pt_lim_plus (fun y => f y * k) (fun y => odot ROps (map (fun f0 => f0 y) fs) c)).
+    + apply (derivable_pt_lim_ext (fun y => k * f y)); [intro; ring|].
+      rewrite Rmult_comm. apply (derivable_pt_lim_scal f k x). exact Hf.
+    + apply IH.
+Qed.
+
+(** ** well-formed complete grid of a direction: distinct nodes, right size, the end
+    points are -1 (not for pp) and +1 *)
+Definition grid_ok (d : dir) (M N : nat) (grid : list R) : Prop :=
+  NoDup grid /\ length grid = gsize d M N /\ last grid 0 = 1 /\
+  match d with Dpp => True | _ => hd 0 grid = -1 end.
+
+(** the function a coefficient vector represents in the (restricted) Chebyshev basis *)
+Definition chebFun (d : dir) (ep : bool) (M N : nat) (c : list R) (y : R) : R :=
+  odot ROps (map (fun n => chebyshev ROps y n (eff_restr d ep))
+                 (cfg_range (cfg_changeBasis d ep M N))) c.
+
+Lemma chebFun_is_poly d ep M N c : sizes_ok d M N -> is_poly (gsize d M N) (chebFun d ep M N c).
+Proof.
+  intro HS. unfold chebFun.
+  apply (is_poly_ext _ (fun y => odot ROps (map (fun f => f y)
+      (map (fun n => fun z => chebyshev ROps z n (eff_restr d ep)) (cfg_range (cfg_changeBasis d ep M N)))) c)).
+  { intro y. now rewrite map_map. }
+  apply odot_is_poly.
+  - destruct d; cbn [gsize sizes_ok] in *; lia.
+  - intros f Hf. apply in_map_iff in Hf. destruct Hf as [n [<- Hn]].
+    apply cfg_changeBasis_bound in Hn.
+    apply (is_poly_mono (Nat.max 2 (S n))); [|apply chebyshev_is_poly].
+    destruct d; cbn [gsize sizes_ok] in *; lia.
+Qed.
+
+Lemma odot_all_zero (l : list R) c : (forall v, In v l -> v = 0) -> odot ROps l c = 0.
+Proof.
+  revert c. induction l as [|v l IH]; intros c H; [reflexivity|]. destruct c as [|k c]; [reflexivity|].
+  cbn [odot]. rewrite IH by (intros w Hw; apply H; now right).
+  rewrite (H v (or_introl eq_refl)). cbn. ring.
+Qed.
+
+(** the represented function vanishes at the dropped boundary points *)
+Lemma chebFun_vanish d ep M N grid c g :
+  grid_ok d M N grid -> In g grid -> ~ In g (trim d ep grid) -> chebFun d ep M N c g = 0.
+Proof.
+  intros [Hnd [L [Hl Hh]]] Hin Hn. pose proof (trim_dropped d ep grid g Hin Hn) as Hg.
+  unfold chebFun. apply odot_all_zero. intros v Hv. apply in_map_iff in Hv.
+  destruct Hv as [n [<- _]].
+  destruct ep; [exfalso; apply Hn; exact Hin|]. unfold eff_restr.
+  destruct d; cbn [full_restr].
+  - destruct Hg as [->| ->]; [rewrite Hh|rewrite Hl]; apply restricted_full_vanish.
+  - destruct Hg as [->| ->]; [rewrite Hh|rewrite Hl]; apply restricted_full_vanish.
+  - rewrite Hg, Hl. apply restricted_partial_vanish.
+Qed.
+
+(** tnMatrix c = values of the represented function at the selected nodes *)
+Lemma tnMatrix_values d ep M N grid c :
+  omatvec ROps (tnMatrix ROps d ep grid M N) c = map (chebFun d ep M N c) (trim d ep grid).
+Proof.
+  unfold omatvec, tnMatrix, chebFun. rewrite map_map. apply map_ext. intro x.
+  now rewrite cfg_changeBasis_restr.
+Qed.
+
+(** ** evaluate_agrees: evaluation in the Chebyshev representation equals evaluation in
+    the cardinal representation of the converted coefficients, at EVERY x *)
+Theorem evaluate_agrees_R d ep M N grid c x :
+  grid_ok d M N grid -> sizes_ok d M N ->
+  odot ROps (evalRow ROps Chebyshev d ep grid M N x) c =
+  odot ROps (evalRow ROps Cardinal d ep grid M N x)
+       (omatvec ROps (tnMatrix ROps d ep grid M N) c).
+Proof.
+  intros G HS. pose proof G as [Hnd [L [Hl Hh]]].
+  transitivity (chebFun d ep M N c x).
+  { unfold evalRow, chebFun. destruct (cfg_evalCheb_eq d ep M N HS) as [-> ->].
+    now rewrite cfg_changeBasis_restr. }
+  rewrite tnMatrix_values.
+  unfold evalRow.
+  rewrite <- (map_map (fun n => nth n grid 0) (fun xn => cardinal ROps grid xn x)).
+  cbn [ROps o0]. rewrite (evalCard_nodes d ep grid M N L HS).
+  rewrite odot_R_map.
+  rewrite <- (interp_exact_fn grid (trim d ep grid) (chebFun d ep M N c)).
+  - unfold interp. f_equal. apply map_ext. intro a. ring.
+  - exact Hnd.
+  - now apply trim_NoDup.
+  - apply trim_incl.
+  - rewrite L. now apply chebFun_is_poly.
+  - intros g Hg Hn. now apply (chebFun_vanish d ep M N grid c g G).
+Qed.
+
+(** evaluation at a selected grid point returns the grid value (cardinal coefficient) *)
+Theorem evaluate_at_node_R grid sel v xm :
+  NoDup sel -> In xm sel -> incl sel grid ->
+  odot ROps (map (fun xn => cardinal ROps grid xn xm) sel) (map v sel) = v xm.
+Proof.
+  intros Hnd Hin Hincl. rewrite odot_R_map.
+  transitivity (interp grid sel v xm); [unfold interp; f_equal; apply map_ext; intro; ring|].
+  rewrite interp_at_node; [|exact Hnd|now apply Hincl].
+  destruct (in_dec Req_EM_T xm sel); [reflexivity|contradiction].
+Qed.
+
+(** ** derivative matrices *)
+(** cardinal basis: D v = f' on the complete grid (boundaries included) *)
+Theorem cardinalDeriv_exact_R d ep grid f f' :
+  NoDup grid -> is_poly (length grid) f ->
+  (forall g, In g grid -> ~ In g (trim d ep grid) -> f g = 0) ->
+  (forall x, derivable_pt_lim f x (f' x)) ->
+  omatvec ROps (cardinalDeriv ROps d ep grid) (map f (trim d ep grid)) = map f' grid.
+Proof.
+  intros Hnd Hp Hz Hd. unfold omatvec, cardinalDeriv. rewrite map_map.
+  apply map_ext_in. intros xj Hj. rewrite odot_R_map.
+  apply deriv_matrix_exact_fn; try assumption.
+  - now apply trim_NoDup.
+  - apply trim_incl.
+  - apply Hd.
+Qed.
+
+(** Chebyshev basis: each entry of _chebyshevDeriv is the derivative, at that grid point,
+    of the basis function that changeBasis / evaluate / _chebyshevMatrix use for the same
+    direction and end-point flag *)
+Theorem chebyshevDeriv_entry_R d ep n x :
+  derivable_pt_lim (fun y => chebyshev ROps y n (eff_restr d ep)) x
+                   (chebyshevDeriv ROps x n (full_restr d) ep).
+Proof.
+  unfold eff_restr. destruct ep.
+  - apply chebyshev_plain_deriv.
+  - apply chebyshev_restricted_deriv.
+Qed.
+
+Lemma Forall2_map_both {A B C} (P : B -> C -> Prop) (f : A -> B) (g : A -> C) l :
+  (forall a, P (f a) (g a)) -> Forall2 P (map f l) (map g l).
+Proof. intro H. induction l; cbn; constructor; auto. Qed.
+
+Theorem chebyshevDeriv_exact_R d ep M N grid c :
+  length grid = gsize d M N -> sizes_ok d M N ->
+  Forall2 (fun xj dj => derivable_pt_lim (chebFun d ep M N c) xj dj)
+          grid (omatvec ROps (chebyshevDerivM ROps d ep grid) c).
+Proof.
+  intros L HS. unfold omatvec, chebyshevDerivM. rewrite map_map.
+  destruct (cfg_chebDeriv_eq d ep M N HS) as [E _]. rewrite L, E.
+  assert (Er : c_restr (cfg_chebDeriv d ep (gsize d M N)) = full_restr d) by (destruct d, ep; reflexivity).
+  rewrite Er. clear E Er L.
+  induction grid as [|xj grid IH]; [constructor|]. cbn [map]. constructor; [|exact IH].
+  unfold chebFun.
+  apply (derivable_pt_lim_ext (fun y => odot ROps (map (fun f => f y)
+      (map (fun n => fun z => chebyshev ROps z n (eff_restr d ep)) (cfg_range (cfg_changeBasis d ep M N)))) c)).
+  { intro y. now rewrite !map_map. }
+  apply odot_derive. apply Forall2_map_both. intro n. apply chebyshevDeriv_entry_R.
+Qed.
+
+(** ** linearity of every matrix action *)
+Lemma odot_linear (r a b : list R) k :
+  length a = length b ->
+  odot ROps r (map (fun p => k * fst p + snd p) (combine a b)) = k * odot ROps r a + odot ROps r b.
+Proof.
+  revert a b. induction r as [|x r IH]; intros a b L; [cbn; ring|].
+  destruct a as [|u a], b as [|w b]; try discriminate L; [cbn; ring|].
+  cbn [combine map odot fst snd]. rewrite IH by (cbn in L; lia). cbn. ring.
+Qed.
+
+(** ** the matrices act independently along each axis: along axis i+1 the operator is the
+    same operator along axis i mapped over the leading index (definitional), and the
+    action along axis 0 of a vector of scalars is the matrix-vector product *)
+Lemma apply_axis_S {T} (O : Ops T) i m l :
+  apply_axis O (S i) m (Vec l) = Vec (map (apply_axis O i m) l).
+Proof. reflexivity. Qed.
+Lemma contract_axis_S {T} (O : Ops T) i r l :
+  contract_axis O (S i) r (Vec l) = Vec (map (contract_axis O i r) l).
+Proof. reflexivity. Qed.
